@@ -474,9 +474,10 @@ def _drive_icp(plan, out, tr):
     s = plan["seed"]
     steps, n = c["steps"], c["npts"]
     dt = torch.float64
-    tgt = rng.randn(s, ("tgt",), (1, n, 3), dt)
-    T = pp.se3(rng.randn(s, ("T",), (1, 6), dt, 0.15)).Exp()
-    src = T.unsqueeze(-2).Act(tgt) + c["noise"] * rng.randn(s, ("noise",), (1, n, 3), dt)
+    Bc = 2 if rng.H(s, "icp-batch") % 3 == 0 else 1
+    tgt = rng.randn(s, ("tgt",), (Bc, n, 3), dt)
+    T = pp.se3(rng.randn(s, ("T",), (Bc, 6), dt, 0.15)).Exp()
+    src = T.unsqueeze(-2).Act(tgt) + c["noise"] * rng.randn(s, ("noise",), (Bc, n, 3), dt)
     stepper = CountingBason(cap=10 * steps + 5, steps=steps, patience=c["patience"],
                             decreasing=c["decreasing"], tol=c["tol"])
     icp = pp.module.ICP(stepper=stepper)
